@@ -750,7 +750,7 @@ func init() {
 		Level: "exploration",
 		Rule: "each case = one option vector (IUPAC primers 4-30 nt, error budgets 0-3 per primer, min/max length, flanks with/without only-complete, linear/circular) and several a/c/g/t templates of 30-600 nt with 0-4 planted priming-site pairs (0..e+1 mismatches per site, distance at min-1/min/max/max+1/1/0/overlapping, constructs at the very ends or across the origin, either strand); " +
 			"the real obiapat.PCRSim / PCRSlice / PCRSliceWorker and the obipcr command are executed and compared with a brute-force matcher (IUPAC set inclusion per position, both strands, every pair of sites), with the run on the reverse-complemented template, on rotated circular templates, one-by-one vs batch, obipcr with and without --fragmented on templates longer than 1000 x max-length, and ASan / UBSan(shift,bounds,signed-integer-overflow,integer-divide-by-zero,null) builds of obipcr vs the normal build. " +
-			"Added later: concurrent sub-check (one PCRSliceWorker shared by 2-16 goroutines), end to end: primers decorated with '#' marks when the budget is 0, templates that are exactly one product (0-2 flanking bases). Templates carrying the annotations of an earlier PCR under the names this one writes (nested PCR). " +
+			"Added later: concurrent sub-check (one PCRSliceWorker shared by 2-16 goroutines), end to end: primers decorated with '#' marks when the budget is 0, templates that are exactly one product (0-2 flanking bases). Templates carrying the annotations of an earlier PCR under the names this one writes (nested PCR). fragmented: templates tiled with the longest product allowed (starts on every offset relative to the fragment borders), the same locus planted twice several fragments apart (one amplicon per locus). " +
 			"distinct_nontrivial = distinct (sub-check, pair status required/optional/none with reason, geometry incl. strand, linear/circular inner/wrapping, unequal primer lengths, flank clipping, mismatches of both sites, flank mode, length class relative to the bounds, site at position 0 / at the end) classes of site pairs actually present in executed templates, plus batch shapes and rotation classes",
 		Assume: []string{
 			"templates are over a,c,g,t (what a template ambiguity code matches is not fixed by the property)",
